@@ -82,18 +82,46 @@ struct Case
 	after: bool,
 	/// also run the full staged prediction of the statement through `Front.assemble`
 	staged: bool,
+	/// the pattern the instruction was decoded from: what the assembled text must reproduce (the crate's own encoder is not the reference)
+	raw: Option<Vec<u8>>,
+	/// `Some(short)`: the label is a real LABEL in its own region `.addr <target>; l_X: NOP…` (before or after the statement's region as `after`
+	/// says), filled with NOPs up to `short` halfwords below the statement (0 = exactly adjacent) when the target lies below the statement
+	region: Option<u32>,
+}
+
+/// The bytes the printed text must assemble to: the pattern it was decoded from. One documented alias family is not reproducible from
+/// the text: ADDS/SUBS Rd, Rd, #imm3 in the three-operand encoding (0001 11 op imm3 Rn Rd with Rn = Rd) is printed like, and assembles
+/// to, the imm8 encoding (A6.7.2 T2 / A6.7.65 T2: 0011 op Rdn imm8).
+fn canonical_of_raw(raw: &[u8]) -> Vec<u8>
+{
+	if raw.len() == 2
+	{
+		let h = u16::from_le_bytes([raw[0], raw[1]]);
+		if h & 0xFC00 == 0x1C00 && (h >> 3 & 7) == (h & 7)
+		{
+			let (op, imm3, rd) = (h >> 9 & 1, h >> 6 & 7, h & 7);
+			return (0x3000 | op << 11 | rd << 8 | imm3).to_le_bytes().to_vec();
+		}
+	}
+	raw.to_vec()
 }
 
 fn input_of(c: &Case) -> String
 {
-	format!("{} @{} {}{}", ser_instr(&c.instr), c.addr, if c.after {"after"} else {"before"}, if c.staged {" staged"} else {""})
+	let flags = format!("{}{}{}", if c.after {"after"} else {"before"}, if c.staged {" staged"} else {""}, match c.region {Some(k) => format!(" region{k}"), None => String::new()});
+	match &c.raw
+	{
+		Some(r) => format!("raw {} @{} {flags}", hex(r), c.addr),
+		None => format!("{} @{} {flags}", ser_instr(&c.instr), c.addr),
+	}
 }
 
 fn parse_input(s: &str) -> Option<Case>
 {
 	let (i, rest) = s.split_once(" @")?;
 	let w: Vec<&str> = rest.split(' ').collect();
-	Some(Case{instr: de_instr(i)?, addr: w.first()?.parse().ok()?, after: w.get(1) == Some(&"after"), staged: w.get(2) == Some(&"staged")})
+	Some(Case{instr: de_instr(i)?, addr: w.first()?.parse().ok()?, after: w.get(1) == Some(&"after"), staged: w.contains(&"staged"), raw: None,
+		region: w.iter().find_map(|x| x.strip_prefix("region").and_then(|k| k.parse().ok()))})
 }
 
 fn run_batch(cx: &mut Cx, cases: &[Case], dirs: &DirectiveList)
@@ -159,14 +187,39 @@ fn run_batch(cx: &mut Cx, cases: &[Case], dirs: &DirectiveList)
 		{
 			cx.report.oracle_fail(input.clone(), format!("text {text:?} mentions a label but the instruction has no PC-relative target"));
 		}
-		let mut defs = String::new();
-		for (n, v) in &labs {defs.push_str(&format!(".const {n}, 0x{v:X}; "));}
 		let head = format!(".addr 0x{:X}; ", c.addr);
-		let (prog, col) = if c.after {(format!("{head}{text} {}", defs.trim_end()), head.len() + 1)} else {(format!("{head}{defs}{text}"), head.len() + defs.len() + 1)};
-		let real = real_run(&prog, 1, col as u32, dirs);
-		// oracle on the implementation: exactly the canonical encoding of the same instruction, no diagnostics
 		let canon = encode(&c.instr);
-		match (&canon, &real.panic)
+		let len = canon.as_ref().map(|e| e.len() as u32).unwrap_or(2);
+		// expected image: the statement's bytes (the ORIGINAL pattern when the case carries it) and the fillers of a label region
+		let want_stmt: Result<Vec<u8>, String> = match &c.raw {Some(r) => Ok(canonical_of_raw(r)), None => canon.clone()};
+		let mut want_img: std::collections::BTreeMap<u32, u8> = std::collections::BTreeMap::new();
+		if let Ok(w) = &want_stmt {for (k, b) in w.iter().enumerate() {want_img.insert(c.addr.wrapping_add(k as u32), *b);}}
+		let region_ok = c.region.is_some() && labs.len() == 1 && !(labs[0].1 as u64 > c.addr as u64 && (labs[0].1 as u64) < c.addr as u64 + len as u64) && labs[0].1 as u64 + 2 <= 1 << 32;
+		let (prog, col) = if region_ok
+		{
+			let (name, t) = (&labs[0].0, labs[0].1);
+			let short = c.region.unwrap();
+			if t == c.addr {(format!("{head}{name}: {text}"), 0)}
+			else
+			{
+				// fillers: below the statement up to `short` halfwords under it (at most 40), above it a few
+				let k = if t < c.addr {((c.addr - t) / 2).saturating_sub(short).min(if (c.addr - t) / 2 <= 40 {40} else {3})} else {short.min(((1u64 << 32) - t as u64) as u32 / 2)};
+				for j in 0..2 * k {want_img.insert(t + j, if j % 2 == 0 {0x00} else {0xBF});}
+				let region = format!(".addr 0x{t:X}; {name}: {}", "NOP; ".repeat(k as usize));
+				if c.after {(format!("{head}{text} {}", region.trim_end()), 0)} else {(format!("{region}{head}{text}"), 0)}
+			}
+		}
+		else
+		{
+			let mut defs = String::new();
+			for (n, v) in &labs {defs.push_str(&format!(".const {n}, 0x{v:X}; "));}
+			if c.after {(format!("{head}{text} {}", defs.trim_end()), head.len() + 1)} else {(format!("{head}{defs}{text}"), head.len() + defs.len() + 1)}
+		};
+		let real = real_run(&prog, 1, col as u32, dirs);
+		let got_img: std::collections::BTreeMap<u32, u8> = real.out.iter().flat_map(|(a, b)| b.iter().enumerate().map(move |(k, x)| (a.wrapping_add(k as u32), *x))).collect();
+		let image_ok = want_stmt.is_ok() && got_img == want_img;
+		// oracle on the implementation: exactly the bytes the text was decoded from, no diagnostics
+		match (&want_stmt, &real.panic)
 		{
 			(_, Some(p)) => cx.report.oracle_fail(input.clone(), format!("the assembler panicked on {prog:?}: {p}")),
 			(Err(e), _) => cx.report.oracle_fail(input.clone(), format!("a decoded instruction has no encoding: {e}")),
@@ -176,12 +229,14 @@ fn run_batch(cx: &mut Cx, cases: &[Case], dirs: &DirectiveList)
 				{
 					cx.report.oracle_fail(input.clone(), format!("{prog:?} is refused: {:?} {:?}", real.errs, real.other));
 				}
-				else if real.out != vec![(c.addr, enc.clone())]
+				else if !image_ok
 				{
-					cx.report.oracle_fail(input.clone(), format!("{prog:?} assembles to {:?}, canonical encoding is {}", real.out, hex(enc)));
+					cx.report.oracle_fail(input.clone(), format!("{prog:?} assembles to {:?}; the pattern the text was printed for is {} at {:08X}{}", real.out, hex(enc), c.addr,
+						if c.raw.as_ref().is_some_and(|r| *r != *enc) {" (imm8 form of the three-operand alias)"} else {""}));
 				}
 			},
 		}
+		if region_ok {cx.report.hit(if c.after {"label as a label in its own region, after the statement"} else {"label as a label in its own region, before the statement"});}
 		// the model's build of the denoted statement gives the same instruction (what `show_assembles` proves)
 		let want = format!("completed | {}", ser_instr(&c.instr));
 		let got = match parts.get(1).copied()
@@ -192,13 +247,13 @@ fn run_batch(cx: &mut Cx, cases: &[Case], dirs: &DirectiveList)
 		};
 		let imp = match (&canon, real.errs.is_empty() && real.other.is_empty() && real.panic.is_none())
 		{
-			(Ok(enc), true) if real.out == vec![(c.addr, enc.clone())] => want.clone(),
+			(Ok(_), true) if image_ok => want.clone(),
 			_ => match real.errs.first() {Some(e) => format!("error {e}"), None => format!("not assembled: {}", real.canon())},
 		};
 		cx.report.compare("model.front.build(show.parts)", &input, &got, &imp);
 		cx.report.case(Some(&format!("{th}{}", c.addr)));
 		cx.report.hit(if tgt.is_some() {if c.after {"pc-relative, label after (deferred)"} else {"pc-relative, label before"}} else {"not pc-relative"});
-		if c.staged
+		if c.staged && !region_ok
 		{
 			match analyse(&prog)
 			{
@@ -222,8 +277,9 @@ fn run_batch(cx: &mut Cx, cases: &[Case], dirs: &DirectiveList)
 	}
 }
 
-fn push_cases(out: &mut Vec<Case>, instr: Instruction, rng: &mut Rng, n: &mut u64, all_addrs: bool)
+fn push_cases(out: &mut Vec<Case>, instr: Instruction, raw: &[u8], rng: &mut Rng, n: &mut u64, all_addrs: bool)
 {
+	let raw = Some(raw.to_vec());
 	*n += 1;
 	if target(&instr, 0).is_some()
 	{
@@ -232,18 +288,21 @@ fn push_cases(out: &mut Vec<Case>, instr: Instruction, rng: &mut Rng, n: &mut u6
 			for a in ADDRS
 			{
 				let after = rng.chance(1, 4);
-				out.push(Case{instr, addr: a, after, staged: after || rng.chance(1, 8)});
+				out.push(Case{instr, addr: a, after, staged: after || rng.chance(1, 8), raw: raw.clone(), region: None});
+				// the same statement with its label defined as a LABEL in a region of its own, exactly adjacent or a little short
+				if rng.chance(1, 2) {out.push(Case{instr, addr: a, after: rng.chance(1, 2), staged: false, raw: raw.clone(), region: Some(*rng.pick(&[0u32, 0, 0, 1, 2, 5]))});}
 			}
 		}
 		else
 		{
 			let after = rng.chance(1, 4);
-			out.push(Case{instr, addr: *rng.pick(&ADDRS), after, staged: after || rng.chance(1, 8)});
+			out.push(Case{instr, addr: *rng.pick(&ADDRS), after, staged: after || rng.chance(1, 8), raw: raw.clone(), region: None});
+			if rng.chance(1, 3) {out.push(Case{instr, addr: *rng.pick(&ADDRS), after: rng.chance(1, 2), staged: false, raw: raw.clone(), region: Some(*rng.pick(&[0u32, 0, 1, 3]))});}
 		}
 	}
 	else
 	{
-		out.push(Case{instr, addr: ADDRS[(*n % 8) as usize], after: false, staged: rng.chance(1, 16)});
+		out.push(Case{instr, addr: ADDRS[(*n % 8) as usize], after: false, staged: rng.chance(1, 16), raw, region: None});
 	}
 }
 
@@ -373,13 +432,15 @@ non-trivial = assembled case; distinct = distinct (text, address)".to_owned();
 		if let Some(rest) = input.strip_prefix("raw ")
 		{
 			let (h, a) = rest.split_once(" @").unwrap_or((rest, "536870912"));
+			let w: Vec<&str> = a.split(' ').collect();
 			let b = unhex(h).unwrap_or_default();
 			match guarded(|| Instruction::decode(&b))
 			{
-				Ok(Ok((_, i))) =>
+				Ok(Ok((n, i))) =>
 				{
 					arch_check(cx, &b, &i);
-					run_batch(cx, &[Case{instr: i, addr: a.parse().unwrap_or(0x2000_0000), after: false, staged: false}], dirs);
+					run_batch(cx, &[Case{instr: i, addr: w[0].parse().unwrap_or(0x2000_0000), after: w.contains(&"after"), staged: w.contains(&"staged"), raw: Some(b[..n].to_vec()),
+						region: w.iter().find_map(|x| x.strip_prefix("region").and_then(|k| k.parse().ok()))}], dirs);
 				},
 				_ => cx.report.oracle_fail(input, "pattern does not decode"),
 			}
@@ -402,7 +463,7 @@ non-trivial = assembled case; distinct = distinct (text, address)".to_owned();
 		let b = (h as u16).to_le_bytes();
 		match guarded(|| Instruction::decode(&b))
 		{
-			Ok(Ok((2, i))) => {arch_check(cx, &b, &i); push_cases(&mut cases, i, &mut cx.rng, &mut n16, true)},
+			Ok(Ok((2, i))) => {arch_check(cx, &b, &i); push_cases(&mut cases, i, &b, &mut cx.rng, &mut n16, true)},
 			Ok(_) => (),
 			Err(p) => cx.report.oracle_fail(format!("decode {h:04x}"), format!("decoder panicked: {p}")),
 		}
@@ -428,7 +489,7 @@ non-trivial = assembled case; distinct = distinct (text, address)".to_owned();
 					let h1 = 0xD000 | ((sjj >> 1) & 1) << 13 | (sjj & 1) << 11 | imm11;
 					let b = [h0.to_le_bytes(), h1.to_le_bytes()].concat();
 					tried += 1;
-					if let Ok(Ok((4, i))) = guarded(|| Instruction::decode(&b)) {arch_check(cx, &b, &i); push_cases(&mut cases, i, &mut cx.rng, &mut n32, false);}
+					if let Ok(Ok((4, i))) = guarded(|| Instruction::decode(&b)) {arch_check(cx, &b, &i); push_cases(&mut cases, i, &b, &mut cx.rng, &mut n32, false);}
 				}
 				flush(cx, &mut cases, dirs, false);
 			}
@@ -446,7 +507,7 @@ non-trivial = assembled case; distinct = distinct (text, address)".to_owned();
 		{
 			got += 1;
 			arch_check(cx, &b, &i);
-			push_cases(&mut cases, i, &mut cx.rng, &mut n32, false);
+			push_cases(&mut cases, i, &b, &mut cx.rng, &mut n32, false);
 			flush(cx, &mut cases, dirs, false);
 		}
 	}
